@@ -34,6 +34,53 @@ TRUSTED_BASE_COMMON = [
 ]
 
 
+# ----------------------------------------------------------------------------- source fingerprint
+FINGERPRINT = VERIF / "harness" / "source_fingerprint.json"
+DRIFT_FACTOR = 3
+
+
+def _strip_doc(tree):
+    import ast
+    for node in ast.walk(tree):
+        if isinstance(node, (ast.Module, ast.ClassDef, ast.FunctionDef, ast.AsyncFunctionDef)):
+            b = node.body
+            if b and isinstance(b[0], ast.Expr) and isinstance(getattr(b[0], "value", None), ast.Constant) \
+                    and isinstance(b[0].value.value, str):
+                node.body = b[1:] or [ast.Pass()]
+    return tree
+
+
+def source_fingerprint(repo=None):
+    """sha256 of the docstring-free AST of every non-test module of nitime (plus the raw .pyx source):
+    comments, blank lines and docstrings do not change it, any change of the code does."""
+    import ast
+    repo = Path(repo or REPO)
+    out = {}
+    for f in sorted((repo / "nitime").rglob("*.py")) + sorted((repo / "nitime").rglob("*.pyx")):
+        rel = str(f.relative_to(repo))
+        if "/tests/" in rel or rel.endswith("/_version.py") or rel.endswith("/version.py"):
+            continue
+        try:
+            txt = f.read_text()
+            if f.suffix == ".py":
+                txt = ast.dump(_strip_doc(ast.parse(txt)), annotate_fields=False)
+            out[rel] = hashlib.sha256(txt.encode()).hexdigest()
+        except Exception as e:            # unparsable source: always counts as drift
+            out[rel] = "unreadable:" + type(e).__name__
+    return out
+
+
+def source_drift():
+    """modules whose code differs from the tree the hand models were last validated against
+    (harness/source_fingerprint.json, rewritten only by tools/mk_fingerprint.py after a clean pass)"""
+    try:
+        rec = json.loads(FINGERPRINT.read_text())["files"]
+    except Exception:
+        return ["<no recorded fingerprint>"]
+    cur = source_fingerprint()
+    return sorted(k for k in set(rec) | set(cur) if rec.get(k) != cur.get(k))
+
+
 # ----------------------------------------------------------------------------- literals
 def zlit(n):
     n = int(n)
@@ -146,6 +193,16 @@ class Ctx:
         self.extra = {}
         self.broken = []          # names of lemmas that no longer check
         self._replay_n = 0
+        # the hand models were validated against one particular source text; when the code of nitime has
+        # drifted from it, the quick tier deepens every sample (up to the thorough size) before trusting the tie
+        self.drift = [] if replay else source_drift()
+        if self.drift:
+            self.extra["source_drift"] = {"modules": self.drift, "quick_sample_factor": DRIFT_FACTOR,
+                                          "note": "code differs from harness/source_fingerprint.json: quick-tier "
+                                                  "case counts multiplied (capped at the thorough-tier size)"}
+        else:
+            self.extra["source_drift"] = {"modules": [], "note": "code identical (docstring-free AST) to the tree "
+                                                                 "the models were last validated against"}
 
     # ---- tiers
     @property
@@ -153,6 +210,8 @@ class Ctx:
         return self.tier == "quick"
 
     def scale(self, q, t):
+        if self.quick and self.drift and type(q) is int and type(t) is int and t > q:
+            return min(t, q * DRIFT_FACTOR)
         return q if self.quick else t
 
     # ---- build of the static development
